@@ -489,6 +489,8 @@ def structural_clone(crate, adt):
         if not (isinstance(r, tuple) and r and r[0] == "agg" and isinstance(r[1], tuple) and r[1][0] == "adt" and len(r[2]) == nf):
             return False, "clone returns %s" % tstr(r)[:80]
         for i, fv in enumerate(r[2]):
+            if str(fields_of(adt)[i].get("ty", "")).split("<")[0].endswith("PhantomData"):
+                continue   # a zero-sized marker: every value of it is the same value
             if not copy_of(fv, selfp, i):
                 return False, "field %d of the copy is %s" % (i, tstr(fv)[:60])
     fb = items.get("clone_from")
@@ -554,7 +556,15 @@ def structural_clone(crate, adt):
             for e in st.event_list():
                 if e.kind == "call" and e.extra.get("name") in ("iter", "deref", "as_slice", "as_ref", "index"):
                     src_read.update(x for x in (fld(a_, src) for a_ in e.args) if x is not None)
-            done |= (proj_touch & src_read)
+            def _body_events(s_):
+                evs_ = s_.event_list()
+                li_ = max([k_ for k_, e_ in enumerate(evs_) if e_.kind == "loop"] or [len(evs_)])
+                return evs_[li_:]
+
+            loop_copies = any(e.kind == "call" and e.extra.get("name") in ("clone_from", "clone", "clone_from_slice", "copy_from_slice") for l_ in I.backedge_states.values() for s_ in l_ for e in _body_events(s_))
+            if loop_copies:
+                done |= (proj_touch & src_read)
+            done |= {i for i in range(nf) if str(fields_of(adt)[i].get("ty", "")).split("<")[0].endswith("PhantomData")}
             if done != set(range(nf)):
                 return False, "clone_from leaves field(s) %s of self as they were on some path" % sorted(set(range(nf)) - done)
     return True, "hand-written, field by field"
@@ -609,7 +619,7 @@ def structural_eq(crate, adt):
         t = strip_mem(t)
         if not isinstance(t, tuple) or not t:
             return None
-        if t[0] == "bin" and t[1] in ("Eq", "Ne"):
+        if t[0] in ("bin", "fcmp") and t[1] in ("Eq", "Ne"):
             xs = [t[2], t[3]]
             neg = t[1] == "Ne"
         elif t[0] == "call" and "PartialEq" in str(t[1]) and str(t[1]).endswith(("::eq", "::ne")):
